@@ -23,7 +23,7 @@ RULE = ("run = 1-4 descriptions (paper/example files, generator boards, random w
 
 
 def n_fixed(tier):
-    return 1
+    return 2
 
 
 def fixed_specs(tier, ctx):
@@ -35,7 +35,47 @@ def fixed_specs(tier, ctx):
         opl.append({"op": "solve_fresh", "d": i, "prune": True})
         opl.append({"op": "solve_fresh", "d": i, "prune": True})
         opl.append({"op": "solve_fresh", "d": i, "prune": False})
-    return [{"cfg": {"klass": "plain"}, "descs": descs, "ops": opl}]
+    return [{"cfg": {"klass": "plain"}, "descs": descs, "ops": opl}, _quiet_spec(tier)]
+
+
+def _quiet_spec(tier):
+    """Long quiet stretches: probe games of ascending size are solved (both modes), then one tiny game is solved
+    about T times in the same process (nothing else happens), then the probes again in the same ascending order -
+    for T = 2^8 .. 2^16 (thorough: 2^5 .. 2^17 and some powers of ten).  With P probe solves per round the solves
+    of the second round fall T-P/4 .. T+P/4 calls after the last solve of the first round, and each of them meets
+    state indices no call has touched since then: generation stamps, wrapped counters, caches that evict or expire
+    by count show on exactly such a call."""
+    import random as _r
+    from .. import pools
+    rng = _r.Random(7)
+    descs = [{"desc": enc({"rewards": [1, 0], "players": ["Player 1", "Probabilistic"],
+                           "transition_list": [[("go", 1)], [(1, 1)]], "final_states": [1]}), "tag": "quiet-tiny"}]
+    chain = {"rewards": [1, 1, 1, 1, 1, 0, 0], "players": ["Probabilistic"] * 7,
+             "transition_list": [[(0.5, 1), (0.5, 6)], [(1, 2)], [(1, 3)], [(1, 4)], [(1, 5)], [(1, 5)], [(1, 6)]], "final_states": [5]}
+    # (renumbered at random: which index a search meets early or late differs from game to game)
+    probes = [chain] + [pools.permute_states(rng, pools.stopping_game(rng, n, n)) for n in (13, 19, 25, 31, 37, 43, 49)]
+    probes.sort(key=lambda g: len(g["players"]))
+    for i, g in enumerate(probes):
+        descs.append({"desc": enc(g), "tag": "quiet-probe%d" % i})
+    order = list(range(1, len(probes) + 1))
+    P = 2 * len(probes)
+    targets = [2 ** 8, 2 ** 10, 2 ** 12, 2 ** 15, 2 ** 16] if tier == "quick" else \
+        [2 ** k for k in range(5, 18)] + [1000, 10000, 50000, 100000]
+    opl = []
+    for T in targets:
+        opl.append({"op": "restart", "entropy": T})
+        for rnd in range(2):
+            # (second round: every solve of the ascending pruned series meets indices untouched since round one)
+            for d in order:
+                opl.append({"op": "solve_fresh", "d": d, "prune": True})
+                if rnd == 0:
+                    opl.append({"op": "solve_fresh", "d": d, "prune": False})
+            if rnd == 0:
+                opl.append({"op": "quiet", "d": 0, "prune": True, "times": max(1, T - P // 4 - 1)})
+            else:
+                for d in order:
+                    opl.append({"op": "solve_fresh", "d": d, "prune": False})
+    return {"cfg": {"klass": "quiet-stretches"}, "descs": descs, "ops": opl}
 
 
 def _gen_marathon(rng, ctx):
@@ -314,6 +354,41 @@ def execute(spec, w, ctx):
             w.fired("caller-edits-returned-value", ops.scribble(out["value"], ops.container_ids(live)))
         return None
 
+    def do_quiet(i_op, op):
+        """The same small description solved `times` times, back to back, in this process."""
+        d, prune, times = op["d"], bool(op["prune"]), int(op["times"])
+        if d >= len(live):
+            return None
+        r = ref(d, prune)
+        if r["status"] != "ok":
+            return None
+        desc = live[d]
+
+        def thunk():
+            tad = proc.mod("tad")
+            first = None
+            for k in range(times):
+                cur = canon(tad.StochasticGame(**ops.game_kwargs(desc, prune)).solve())
+                if first is None:
+                    first = cur
+                elif cur != first:
+                    return (k, first, cur)
+            return (None, first, None)
+        out = w.run_op(thunk, {"step_cap": 200 * times * max(1, r["steps"] or 1) + 100000})
+        note_solve(d, prune)
+        w.fired("quiet-stretch-solves", times)
+        events.append([i_op, "quiet", d, prune, times, out["status"]])
+        if out["status"] != "ok":
+            return viol("I10.2", i_op, "%d back-to-back solves of description %d did not finish: %s %s" % (
+                times, d, out["status"], out.get("etype") or out.get("info")), "outcome-kind-differs")
+        k, first, cur = out["value"]
+        if k is not None:
+            return viol("I10.2", i_op, "solve #%d of description %d (%s) in a row differs from the first one: %s vs %s" % (
+                k + 1, d, spec["descs"][d].get("tag"), short(cur, 300), short(first, 300)), "result-differs")
+        if first is not None and first != canon_e(r["value"]):
+            return viol("I10.2", i_op, "back-to-back solves of description %d differ from the pristine reference" % d, "result-differs")
+        return None
+
     def _reload(d):
         fresh = dec(snap_e[d])
         sharers = [k for k in range(len(live)) if live[k].get("transition_list") is live[d].get("transition_list")]
@@ -366,6 +441,8 @@ def execute(spec, w, ctx):
             obj, d = handles[op["h"]]
             out = w.run_op(lambda: getattr(obj, op["what"])(), {"step_cap": 10 ** 7})
             events.append([i_op, "aux", op["what"], out["status"], out.get("etype")])
+        elif kind == "quiet":
+            v = do_quiet(i_op, op)
         elif kind == "restart":
             w.restart(op.get("entropy", 0))
             handles.clear()
